@@ -67,6 +67,15 @@ func (l *LamportClock) Compare(b iface.IPFSLogLamportClock) int {
 		return bytes.Compare(l.ID, b.GetID())
 	}
 
+	// the subtraction wraps around when the times have opposite signs and are
+	// far apart: saturate so that the sign (and its negation) stays right
+	if l.Time < b.GetTime() && (dist > 0 || dist == math.MinInt) {
+		return -math.MaxInt
+	}
+	if l.Time > b.GetTime() && dist < 0 {
+		return math.MaxInt
+	}
+
 	return dist
 }
 
